@@ -7,7 +7,7 @@ use rand::rngs::SmallRng;
 use rand::{Rng, SeedableRng};
 use serde_json::{Value, json};
 use std::panic::{AssertUnwindSafe, catch_unwind};
-use virtio_drivers::transport::SomeTransport;
+use virtio_drivers::transport::{SomeTransport, Transport};
 use virtio_drivers::transport::pci::PciTransport;
 use virtio_drivers::transport::pci::bus::{BarInfo, Cam, ConfigurationAccess, DeviceFunction, MemoryBarType, MmioCam, PciRoot};
 
@@ -110,7 +110,9 @@ fn random_config(rng: &mut SmallRng) -> (PciFunction, Vec<CapSpec>) {
     let nmut = rng.gen_range(0..4);
     for _ in 0..nmut {
         let k = rng.gen_range(0..caps.len());
-        match rng.gen_range(0..11) {
+        match rng.gen_range(0..13) {
+            // the same window moved by a few bytes (alignment of the structure it will hold)
+            11 | 12 => caps[k].offset = caps[k].offset.wrapping_add([1u32, 2, 4, 4, 8, 12, 20][rng.gen_range(0..7)]),
             0 => caps[k].offset = weird32[rng.gen_range(0..weird32.len())],
             1 => caps[k].length = weird32[rng.gen_range(0..weird32.len())],
             2 => caps[k].bar = [0, 1, 2, 3, 4, 5, 6, 7, 59, 60, 255][rng.gen_range(0..11)],
@@ -197,8 +199,13 @@ fn run_new(p: &PciParams, sc: &str) -> (Vec<String>, Value) {
         if let Ok(Ok(t)) = r {
             oks += 1;
             // the transport resets the device when dropped; the accesses must fall in its windows
+            // ... and so must those of setting up a queue, each naturally aligned for its width
             reg(json!({"e":"PciDrop"}));
-            let _ = catch_unwind(AssertUnwindSafe(move || drop(t)));
+            let _ = catch_unwind(AssertUnwindSafe(move || {
+                let mut t = t;
+                t.queue_set(0, 4, 0x1_2345_6000, 0x1_2345_7000, 0x1_2345_8000);
+                drop(t)
+            }));
             reg(json!({"e":"PciDropEnd"}));
         }
         lines.extend(with_world(|w| w.m_lines(&[])));
